@@ -243,6 +243,9 @@ func (vc *VC) runPass() {
 				if as != "" && len(n) > len(as) && n[len(n)-len(as)-1:] == "$"+as {
 					listed = true
 				}
+				if as != "" && (n == as || len(n) > len(as) && n[:len(as)+1] == as+"$") {
+					listed = true // family pattern: "Elems" covers Elems$Int, Elems$String, ...
+				}
 			}
 			if listed {
 				continue
